@@ -399,6 +399,22 @@ def families(tier, ua):
                 req['script'] = default_script()
                 finalize(req)
                 yield 'E6.sim-query-style', with_sim(req, ua, stl)
+    # E6b optional whitespace around field values / None values handed to the simulators (they document stripping)
+    ows_styles = [{'ows': [' ', ' ']}, {'ows': ['\t', '']}, {'ows': ['', ' \t ']}, {'ows': ['  ', ''], 'headers_as_dict': True},
+                  {'none_for_empty': True}, {'none_for_empty': True, 'ows': [' ', '\t'], 'headers_as_dict': True}]
+    for name, vals in HEADER_POOL.items():
+        if name == 'Content-Length':
+            continue
+        picked = [v for v in vals if v][:2] + ['']
+        for v in picked:
+            for stl in ows_styles:
+                if v and 'ows' not in stl:
+                    continue
+                req = new_request(method='POST' if name == 'Content-Type' else 'GET', target='/items',
+                                  headers=[[name, v], ['X-Tags', 'a, b'], ['X-Blank', '']])
+                req['script'] = default_script()
+                finalize(req)
+                yield 'E6.sim-ows', with_sim(req, ua, stl)
     for stl in styles:
         for m in ('GET', 'POST', 'OPTIONS'):
             for body in ('', '{"a": 1}'):
@@ -563,5 +579,9 @@ def rand_request(rng, ua):
                   'inline_query', 'inline_query', 'inline_empty', 'params_empty', 'params_dict'):
             if rng.random() < 0.12:
                 style[k] = True
+        if rng.random() < 0.15:
+            style['ows'] = [rng.choice(['', ' ', '\t', ' \t ']), rng.choice(['', ' ', '\t', '  '])]
+        if rng.random() < 0.1:
+            style['none_for_empty'] = True
         with_sim(req, ua, style)
     return req
